@@ -18,7 +18,7 @@ txt = open(demo).read()
 pkg = re.search(r"^package (\w+)", txt, re.M).group(1)
 pkgdir = {"gopacket": ".", "gopacket_test": ".", "layers": "layers", "layers_test": "layers", "reassembly": "reassembly", "reassembly_test": "reassembly",
           "tcpassembly": "tcpassembly", "tcpassembly_test": "tcpassembly", "ip4defrag": "ip4defrag", "ip4defrag_test": "ip4defrag",
-          "ip6defrag": "ip6defrag", "pcapgo": "pcapgo", "pcapgo_test": "pcapgo", "tcpreader": "tcpassembly/tcpreader", "tcpreader_test": "tcpassembly/tcpreader"}[pkg]
+          "ip6defrag": "ip6defrag", "pcap": "pcap", "pcap_test": "pcap", "pcapgo": "pcapgo", "pcapgo_test": "pcapgo", "tcpreader": "tcpassembly/tcpreader", "tcpreader_test": "tcpassembly/tcpreader"}[pkg]
 tests = re.findall(r"^func (Test\w+)\(", txt, re.M)
 runre = "^(" + "|".join(tests) + ")$"
 rc, out = sh("git -C /repo worktree add -q --detach %s HEAD" % wt)
